@@ -20,10 +20,16 @@
          -> c = correlate(a, b, 'same') (N exact integers, evaluated over Z)
             ++ [argmax c; integer part of the delay floor(N/2) - argmax]
             ++ (1 :: edge :: num shift :: den shift  |  0)      (parabolic peak over Q)
+     5 :: n :: W (n/2+1 pairs re,im, Gaussian integers) ++ phases (n/2+1 pairs * 2^48)
+         -> 1 :: floor(re * 2^40), floor(im * 2^40) of W_k * p_k  | 0     fshift(W, s, ns=n), complex W
+     6 :: n :: x (n ints) ++ y (n ints) ++ twiddles (n pairs * 2^48)
+         -> floor(re * 2^20), floor(im * 2^20) of rfft(x)_k conj(rfft(y)_k), k = 0..n/2   (get_apf_from2spikes)
+     7 :: nsp :: ntr :: nt :: cluster (nsp*ntr*nt ints, spike-major, then trace, then time)
+         -> 1 :: peak trace :: per spike (1 :: integer delay :: (1 :: edge :: num :: den | 0) | 0)  |  0
 *)
 From Coq Require Import ZArith List Bool QArith Qreduction.
 From IBL.lib Require Import PyInt RunLib.
-From IBL.C07 Require Import Model.
+From IBL.C07 Require Import Model Waveform.
 Import ListNotations.
 Open Scope Z_scope.
 
@@ -98,6 +104,49 @@ Definition run_corrmax (N : Z) (r : list Z) : list Z :=
         | None => [0]
         end).
 
+Definition gauss_pairs (l : list Z) : list qc :=
+  (fix go (l : list Z) := match l with a :: b :: t => (a # 1, b # 1)%Q :: go t | _ => [] end) l.
+Definition enc_qc (sc : Z) (z : qc) : list Z :=
+  [(Qnum (fst z) * sc) / Zpos (Qden (fst z)); (Qnum (snd z) * sc) / Zpos (Qden (snd z))].
+
+Definition run_freq (N : Z) (r : list Z) : list Z :=
+  let n := Z.to_nat N in
+  let h := (n / 2 + 1)%nat in
+  let W := gauss_pairs (firstn (2 * h) r) in
+  let p := pairs_of (firstn (2 * h) (skipn (2 * h) r)) in
+  match fshift_freq qc q0 qmul n p W with
+  | Some Y => 1 :: flat_map (enc_qc OUTSC) Y
+  | None => [0]
+  end.
+
+Definition run_cross (N : Z) (r : list Z) : list Z :=
+  let n := Z.to_nat N in
+  let x := map q_of_int (firstn n r) in
+  let y := map q_of_int (firstn n (skipn n r)) in
+  let tw := pairs_of (firstn (2 * n) (skipn (2 * n) r)) in
+  flat_map (enc_qc 1048576) (cross_spectrum qc q0 qadd qmul qconj n (wtable n tw) x y).
+
+Definition run_cluster (nsp ntr nt : Z) (r : list Z) : list Z :=
+  let a := Z.to_nat nsp in let b := Z.to_nat ntr in let c := Z.to_nat nt in
+  let wf := map (chunks b c) (chunks a (b * c) (firstn (a * b * c) r)) in
+  match spike_delays_int b c wf with
+  | None => [0]
+  | Some (tr, ds) =>
+      let tpl := nth tr (template2 b c wf) [] in
+      1 :: Z.of_nat tr ::
+      flat_map (fun spd =>
+        match snd spd with
+        | None => [0]
+        | Some d =>
+            1 :: d ::
+            match corrmax_shift qc q0 q1 qadd qmul qopp qinv qleb qeqb
+                    (map q_of_int (nth tr (fst spd) [])) (map q_of_int tpl) with
+            | Some (edge, sh) => [1; enc_bool edge; Qnum (fst sh); Zpos (Qden (fst sh))]
+            | None => [0]
+            end
+        end) (combine wf ds)
+  end.
+
 Definition run (inp : list Z) : list Z :=
   match inp with
   | 1 :: axis0 :: nr :: nc :: nsh :: r => run_fshift axis0 nr nc nsh r
@@ -106,6 +155,9 @@ Definition run (inp : list Z) : list Z :=
       let x := firstn (Z.to_nat ns) r in
       roll_list Z 0 (Z.to_nat ns) m x
   | 4 :: N :: r => run_corrmax N r
+  | 5 :: N :: r => run_freq N r
+  | 6 :: N :: r => run_cross N r
+  | 7 :: nsp :: ntr :: nt :: r => run_cluster nsp ntr nt r
   | _ => [-999]
   end.
 
